@@ -20,6 +20,7 @@ pub mod c20;
 pub mod c12;
 pub mod c09;
 pub mod c04;
+pub mod c11;
 pub mod smoke;
 pub mod exp;
 pub mod c01;
@@ -61,6 +62,7 @@ pub fn plan(id: &str, tier: &str) -> Option<Plan> {
         "C12" => Some(Plan::new(if _t { 24 } else { 24 }, 1500)),
         "C09" => Some(Plan::new(if _t { 64 } else { 16 }, 1500)),
         "C04" => Some(Plan::new(if _t { 42 } else { 14 }, 2400)),
+        "C11" => Some(Plan::new(if _t { 8 } else { 4 }, 900)),
         _ => None,
     }
 }
@@ -86,6 +88,7 @@ pub fn spec(id: &str) -> Option<Spec> {
         "C12" => Some(c12::spec()),
         "C09" => Some(c09::spec()),
         "C04" => Some(c04::spec()),
+        "C11" => Some(c11::spec()),
         _ => None,
     }
 }
@@ -111,6 +114,7 @@ pub fn worker(ctx: &WorkerCtx) -> WorkerReport {
         "C12" => c12::worker(ctx),
         "C09" => c09::worker(ctx),
         "C04" => c04::worker(ctx),
+        "C11" => c11::worker(ctx),
         other => {
             let mut r = WorkerReport::default();
             r.inconclusive(format!("no worker for {}", other));
